@@ -220,8 +220,8 @@ def run_grad(case):
         ops_for(ps)                     # operators are queued on creation
         return qp.expval(ob)
     which = case.get("which", ["backprop", "odegen", "stoch"])
-    res["value"] = float(circ(params))
     if "backprop" in which:
+        res["value"] = float(circ(params))
         g = jax.jacobian(circ)(params)
         res["backprop"] = [np.asarray(x).reshape(-1).tolist() for x in g]
 
@@ -261,6 +261,15 @@ class Rec:
     def __call__(self, p, t):
         self.log.append([self.fid, canon(p)])
         return 1.0
+
+
+def uniq(log):
+    """set of recorded calls (a coefficient function may be evaluated more than once)"""
+    out = []
+    for x in sorted(log, key=json.dumps):
+        if not out or out[-1] != x:
+            out.append(x)
+    return out
 
 
 def canon(p):
@@ -330,7 +339,7 @@ def run_route(case):
     del log[:]
     try:
         H(params, 0.5)
-        out["calls"] = sorted(log)
+        out["calls"] = uniq(log)
     except Exception as ex:  # noqa
         out["calls"] = None
         out["call_err"] = type(ex).__name__
@@ -340,7 +349,7 @@ def run_route(case):
     try:
         Hp = ParametrizedHamiltonianPytree.from_hamiltonian(H, dense=True, wire_order=H.wires)
         Hp(params, 0.5)
-        out["calls_pytree"] = sorted(log)
+        out["calls_pytree"] = uniq(log)
     except Exception as ex:  # noqa
         out["calls_pytree"] = None
         out["pytree_err"] = type(ex).__name__
@@ -386,9 +395,12 @@ KINDS = {"hw_evolve": run_hw_evolve, "evolve": run_evolve, "hcall": run_hcall, "
 def main():
     payload = json.load(sys.stdin)
     out = []
+    import time
     for case in payload["cases"]:
+        t0 = time.time()
         try:
             out.append(KINDS[case["kind"]](case))
+            out[-1]["secs"] = round(time.time() - t0, 2)
         except Exception as ex:  # noqa
             import traceback
             out.append({"err": type(ex).__name__ + ": " + str(ex)[:300], "tb": traceback.format_exc()[-600:]})
